@@ -102,4 +102,49 @@ for n in range(0, L + 1):
                 want = [c for c in content if any(f in c for f in before)]
                 if out != want:
                     fail(violation="a matching line was dropped although no budget is used up", want=want, **ctx)
-print(json.dumps({"ok": True, "lookups": n1, "contents": n2, "K": K, "L": L}))
+# ---------------------------------------------------------------- (3) host-side collection: the grep pre-filter keeps exactly the matching lines
+import os, shutil, tempfile
+from insights.core.spec_factory import simple_file, simple_command
+from insights.cleaner import Cleaner
+tmp = tempfile.mkdtemp(prefix="c07b_")
+n3 = 0
+try:
+    path = os.path.join(tmp, "rules.txt")
+    FLINES = ["## header", "-w /etc/passwd -k identity", "-a always,exit -S adjtimex -k time-change", "kernel.x = 1", "-D", "a.*b literally", "noise", "tail -k"]
+    open(path, "w").write("\n".join(FLINES) + "\n")
+    for fset in (["kernel"], ["-k"], ["-k", "kernel"], ["-D", "-k"], ["a.*b"], ["--", "-k"], ["noise", "-D", "kernel"]):
+        Specs = type("HSpecs%d" % next(uid), (SpecSet,), {"f": RegistryPoint(filterable=True), "c": RegistryPoint(filterable=True)})
+        Impl = type("HImpl%d" % next(uid), (Specs,), {"f": simple_file(path), "c": simple_command("/bin/cat %s" % path)})
+        filters.add_filter(Specs.f, fset)
+        filters.add_filter(Specs.c, fset)
+        want = [l for l in FLINES if any(f in l for f in fset)]
+        for name, spec in (("simple_file", Impl.f), ("simple_command", Impl.c)):
+            broker = dr.Broker()
+            broker[HostContext] = HostContext()
+            n3 += 1
+            try:
+                got = list(spec(broker).content)
+            except Exception as ex:
+                got = "raised %s: %s" % (type(ex).__name__, ex)
+            if got != want:
+                fail(violation="host-side collection of a filterable spec does not keep exactly the lines containing a filter string", factory=name,
+                     filters=fset, got=got, want=want)
+    # ---- (4) cleaning a spec's content must not consume the registered filters (budgets are per content, the registry is shared)
+    Specs = type("HSpecs%d" % next(uid), (SpecSet,), {"f": RegistryPoint(filterable=True)})
+    Impl = type("HImpl%d" % next(uid), (Specs,), {"f": simple_file(path)})
+    filters.add_filter(Specs.f, "-k", 1)
+    filters.add_filter(Specs.f, "kernel", 2)
+    cl = Cleaner(None, None)
+    for round_ in (1, 2, 3):
+        allow = filters.get_filters(Impl.f, True)
+        before = dict(allow)
+        out = cl.clean_content(list(FLINES), allowlist=allow)
+        n3 += 1
+        if dict(allow) != before or dict(filters.get_filters(Impl.f, True)) != {"-k": 1, "kernel": 2}:
+            fail(violation="cleaning a content consumed the registered filters (budgets written back into the registry / cache)", round=round_,
+                 before=before, after=dict(allow), registry=dict(filters.get_filters(Impl.f, True)))
+        if out != ["kernel.x = 1", "tail -k"]:
+            fail(violation="filtered content differs between rounds / from the budgeted sub-sequence", round=round_, out=out)
+finally:
+    shutil.rmtree(tmp, ignore_errors=True)
+print(json.dumps({"ok": True, "lookups": n1, "contents": n2, "host_collections": n3, "K": K, "L": L}))
